@@ -647,6 +647,7 @@ func c02(r *vkit.Run) {
 		r.SetMinDistinct(0)
 		return
 	}
+	c02Matrix(r) // first: its signatures are the most specific ones for a mode / connection dependence
 	n := r.N(300, 6000)
 	vkit.Parallel(n, 0, func(i int) {
 		c02Check(r, c02Gen(r, i))
@@ -658,7 +659,6 @@ func c02(r *vkit.Run) {
 	}
 	c02Histories(r)
 	c02GHistories(r)
-	c02Matrix(r)
 }
 
 // ---------------------------------------------------------------------------
